@@ -56,7 +56,7 @@ def build(rng, op, sub=None, depth=0):
             return P.Parameter.from_unary(node(shape), x)
         if op == "scaled_sigmoid":
             return P.Parameter.from_unary(P.ScaledSigmoidParameter(shape, vmin=0.25, vmax=rng.choice([1.0, 2.5])), x)
-        lo, hi = rng.choice([(-0.5, None), (None, 0.75), (-1.0, 1.0)])
+        lo, hi = rng.choice([(-0.5, None), (None, 0.75), (-1.0, 1.0), (0.0, None), (None, 0.0), (0.0, 0.75), (-1.0, 0.0)])
         return P.Parameter.from_unary(P.ClampParameter(shape, vmin=lo, vmax=hi), x)
     if op in ("reduce_sum", "reduce_prod", "reduce_lse", "softmax", "log_softmax", "index"):
         shape = tuple(sub.shape) if sub is not None and len(sub.shape) >= 2 else rand_shape(rng, rng.choice([2, 2, 3]))
